@@ -201,7 +201,8 @@ def node_or_name_sexp(ld, x):
     if _ENV.get("name_mode") and not (is_container(n) or isinstance(n, (list, _ENV["NodeCoords"]))):
         try:
             pv = docenc.pyval_sexp(n)
-            if pv == ref_sexp(x.parentref):
+            # None: name() of the root is the None singleton, whose identity is that of every null of the document
+            if n is None or pv == ref_sexp(x.parentref):
                 return "(v %s)" % pv
         except Exception:  # noqa
             pass
